@@ -208,7 +208,7 @@ def run(prop, tier, seed, replay, jobs):
     ev = dict(property_id=prop, tier=tier, seed=seed, level='exploration', coverage=cov,
               assumptions=getattr(mod, 'ASSUMPTIONS', []), wall_s=round(wall, 2),
               violations=len(new_keys))
-    if not replay:
+    if not replay and not os.environ.get('VERIF_NO_EVIDENCE'):
         os.makedirs(os.path.join(ROOT, 'evidence'), exist_ok=True)
         tmp = os.path.join(ROOT, 'evidence', f'{prop}.json.tmp')
         json.dump(ev, open(tmp, 'w'), indent=1)
